@@ -392,6 +392,18 @@ func (c16) Eval(env *Env, c *Case) []Violation {
 			judge([]world.Fault{{AtOp: k, Kind: "fail", Errno: ens[r.Intn(len(ens))]}}, class)
 		}
 	}
+	// signals: if the program handles (or ignores) termination signals itself, a
+	// signal before any operation is a fault of its own kind - without a handler it
+	// is the kill already enumerated above
+	if pilot.W != nil && pilot.W.SignalsNotified {
+		for k, o := range pilot.Log {
+			if o.Name == "exit" || env.Expired() {
+				continue
+			}
+			env.Probe("signal-delivered-to-handler")
+			judge([]world.Fault{{AtOp: k, Kind: "signal", Errno: []string{"SIGTERM", "SIGINT"}[k%2]}}, opClass(o, wrote))
+		}
+	}
 	// seeded fault pairs: a non-fatal failure followed by a second fault later on
 	npairs := 6
 	if thorough {
@@ -662,7 +674,8 @@ func c16Judge(env *Env, c *Case, init []world.FileState, pilot, r *RunResult, cl
 		}
 		return vs
 	}
-	if isPair {
+	if isPair || first.Fault == "signal" {
+		// an interrupted run owes a non-zero status (checked above), not an errno
 		return vs
 	}
 	// ---- 2b. failures found before the fault struck are still reported -------
